@@ -472,6 +472,7 @@ fn job_scenario(size: i64, slide: i64, scripts: Vec<Vec<(i64, i64)>>, bound: usi
         nontrivial: true,
         unbounded: false,
         loop_body: false,
+        sometimes: vec![],
     }
 }
 
